@@ -70,6 +70,23 @@ def scenarios(sim, cls):
                 add(f'{m}:{lt},{rt}',
                     ANode(sim, cls, op=ops.member(m), left=E(lt),
                           right=E(rt)))
+            # no operator takes a whole record: the passes must reject the
+            # node (the generators have no conversion for a record)
+            for side in ('left', 'right', 'both'):
+                for other in ('INTEGER', 'DOUBLE'):
+                    def rec():
+                        r = L('INTEGER')
+                        r.fields['type'] = AType('USER', user='rec')
+                        r.fields['base_type'] = AType('USER', user='rec')
+                        return r
+                    lf = rec() if side in ('left', 'both') else E(other)
+                    rg = rec() if side in ('right', 'both') else E(other)
+                    sc = Scenario(cls, f'{m}:record on the {side},{other}',
+                                  ANode(sim, cls, op=ops.member(m),
+                                        left=lf, right=rg))
+                    sc.must_reject = True
+                    sc.admission_only = True
+                    out.append(sc)
     elif cls == 'UnaryOp':
         ops = sim.enum('qbee.expr', 'Operator')
         for m in ('NEG', 'PLUS', 'NOT'):
